@@ -2,6 +2,7 @@ import HH.Footprint
 import HH.Proofs.SseRefine
 import HH.Proofs.AvxRefine
 import HH.Proofs.NeonRefine
+import HH.Proofs.WasmRefine
 /-!
 # C09 — memory safety and address independence (access-pattern model)
 
@@ -126,6 +127,21 @@ theorem neon_remainder_fn (n : Nat) (h : n < 32) (f : Fin 32 → BitVec 8) (rest
 theorem neon_remainder_in_bounds (buf : List (BitVec 8)) (n : Nat) (hb : buf.length = 32) (h : n < 32) (rest : Mem) :
     neonRemainder (expose (buf.take n) rest) n = some (NeonB.remainder buf n) := by
   rw [list_eq_ofFn buf hb]; exact neon_remainder_fn n h _ rest
+
+set_option maxRecDepth 100000 in
+set_option maxHeartbeats 8000000 in
+theorem wasm_remainder_fn (n : Nat) (h : n < 32) (f : Fin n → BitVec 8) (rest : Mem) :
+    wasmRemainder (expose (List.ofFn f) rest) n = some (WasmB.remainder (List.ofFn f)) := by
+  interval_cases n <;>
+  simp [wasmRemainder, wasmLoadMultipleOfFour, WasmB.remainder, WasmB.loadMultipleOfFour, expose, load64, slice, readN, allSome,
+    List.ofFn_succ, List.range_succ, List.getD, bind, Option.bind, pure, le64, le32]
+
+/-- Wasm: every `le_u64` / slice / index of `remainder` stays inside `buffer.as_slice()` (so none of
+them can panic), for every pending count -/
+theorem wasm_remainder_in_bounds (bytes : List (BitVec 8)) (h : bytes.length < 32) (rest : Mem) :
+    wasmRemainder (expose bytes rest) bytes.length = some (WasmB.remainder bytes) := by
+  have := wasm_remainder_fn bytes.length h (fun i => bytes[i]) rest
+  simpa using this
 
 /-- the aligned 32-byte key load of `AvxHash::force_new` needs (and `#[repr(align(32))] Key` gives)
 a 32-byte aligned key -/
